@@ -78,6 +78,17 @@ def run(ctx, chk, tier):
     else:
         chk.violation("R12.3", INITQ, "explicit-names", [show(o.value.attrs.get("groups"), 80) for o in outs], "asarray(group_names) unchanged", ctx.where(INITQ))
     from_labels_rule(ctx, chk)
+    sampling_alignment(ctx, chk)
+    getitem_rule(ctx, chk)
+    group_cm_rule(ctx, chk)
+    groupwise_rule(ctx, chk)
+    cache_rule(ctx, chk)
+    rest(ctx, chk)
+
+
+def sampling_alignment(ctx, chk):
+    """R12.1 / R12.3 on every GroupScores.bootstrap_sample path: scores and labels carried by one index, names and flags forwarded."""
+    from . import c11
     # ---------------- bootstrap_sample paths
     outs = c11.sample_outcomes(ctx, chk, flags=("neg", "pos"), classes=(GROUP,))
     nsites = 0
@@ -118,11 +129,6 @@ def run(ctx, chk, tier):
             chk.violation("R12.1", BSQ, label + ":flags", "%s/%s" % tuple(show(f) if f is not None else "?" for f in flags), "self.score_class/self.equal_class", ctx.where(BSQ))
     if nsites < 9:
         chk.unknown("R12.1", "only %d sampling paths with a GroupScores construction analysed" % nsites)
-    getitem_rule(ctx, chk)
-    group_cm_rule(ctx, chk)
-    groupwise_rule(ctx, chk)
-    cache_rule(ctx, chk)
-    rest(ctx, chk)
 
 
 def from_labels_rule(ctx, chk):
